@@ -1135,7 +1135,49 @@ SYM = PW_FN + ["ncc_loss", "lcc_loss", "wlcc_loss", "dice_score", "dice_loss", "
               "mi_loss", "nmi_loss"]
 IDENT = SYM
 
+# ---- a loss is a function of its arguments: evaluating it twice with the same tensors gives the same value, and the
+#      mask tensors handed in are not written to (wlcc_loss takes separate source / target masks)
+def gen_repeat(rng, tier):
+    for _ in range(_n(tier, 30, 400, 80)):
+        yield {"loss": rng.choice(["wlcc_loss", "wlcc_loss", "lcc_loss", "ncc_loss", "mse_loss", "mi_loss", "dice_loss"]),
+               "shape": [max(3, n) if k >= 2 else n for k, n in enumerate(_shape(rng, hi=6))], "seed": _seed(rng),
+               "mdtype": rng.choice(["float", "float", "bool"]), "red": rng.choice(REDS), "sep": rng.random() < 0.7}
+
+
+def check_repeat(c):
+    (x, y), r = _data(c, kind="binary" if c["loss"] == "dice_loss" else "uniform")
+    name = c["loss"]
+    sm = _mask(r, c["shape"], "n1", c["mdtype"])
+    tm = _mask(r, c["shape"], "n1", c["mdtype"])
+    if c["mdtype"] == "float":
+        sm, tm = sm.float() * 0.75 + 0.25 * (sm > 0), tm.float()
+    if name == "mi_loss":
+        x, y = x[:, :1], y[:, :1]
+        sm, tm = sm[:, :1], tm[:, :1]
+
+    def f():
+        if name == "wlcc_loss" and c["sep"]:
+            return L.wlcc_loss(x, y, source_mask=sm, target_mask=tm, kernel_size=3, reduction=c["red"])
+        if name in ("wlcc_loss", "lcc_loss"):
+            return getattr(L, name)(x, y, mask=sm, kernel_size=3, reduction=c["red"])
+        if name == "mi_loss":
+            return L.mi_loss(x, y, mask=sm, num_bins=6, vmin=0.0, vmax=1.0)
+        return _call(name, x, y, mask=sm, red=c["red"])
+    keep = [t.clone() for t in (x, y, sm, tm)]
+    a = f()
+    b = f()
+    for nm, t, k in zip(("input", "target", "mask / source_mask", "target_mask"), (x, y, sm, tm), keep):
+        if not torch.equal(t, k):
+            return (f"C16:{name}:writes-argument", f"{name} changed its argument '{nm}' (max abs change "
+                    f"{float((t.double() - k.double()).abs().max()):.3g})")
+    if a.shape != b.shape or _maxabs(a - b) > 0:
+        return (f"C16:{name}:repeat", f"{name} evaluated twice with the same tensors gives different values (diff {_maxabs(a - b):.3g})")
+    return None
+
+
 ORACLES = [
+    Oracle("repeat", gen_repeat, check_repeat, nontrivial=lambda c: True,
+           doc="evaluating a loss twice with the same tensors gives the same value; images and mask tensors are not written to"),
     Oracle("identical", _gen_simple(IDENT, 3, 60, 15), check_identical, nontrivial=_nontrivial,
            doc="loss(x, x) is 0 / the documented minimum (dice_score, tversky_index: 1; MI: not above MI(x, y))"),
     Oracle("range", _gen_simple(IDENT, 3, 60, 15), check_range, nontrivial=_nontrivial,
